@@ -133,7 +133,24 @@ class LeanStage:
         self.wall = time.time() - t0
         return self
 
+    def _heal_build_dir(self):
+        """a run killed in the middle of a build can leave a module's trace / hash files without its .olean; lake then takes the module for
+        built.  Remove the leftovers so that the module is rebuilt."""
+        lib = os.path.join(LEAN, '.lake', 'build', 'lib', 'lean')
+        for root, _dirs, files in os.walk(lib):
+            for f in files:
+                if f.endswith('.trace'):
+                    base = os.path.join(root, f[:-6])
+                    if not os.path.exists(base + '.olean'):
+                        for ext in ('.trace', '.olean.hash', '.ilean.hash', '.ilean', '.c.hash', '.c'):
+                            try:
+                                os.unlink(base + ext)
+                            except OSError:
+                                pass
+                        self.log += 'removed stale build records of %s\n' % os.path.relpath(base, lib)
+
     def _run_locked(self):
+        self._heal_build_dir()
         rc, out = sh([sys.executable, os.path.join(ROOT, 'extract', 'facts.py')])
         self.log += out
         if rc != 0:
@@ -170,7 +187,9 @@ class LeanStage:
         if os.path.exists(cache_file) and os.path.exists(DRIVER):
             try:
                 c = json.load(open(cache_file))
-                if c.get('digest') == digest and c.get('ok'):
+                have = all(os.path.exists(os.path.join(LEAN, '.lake', 'build', 'lib', 'lean', 'Properties', f[:-5] + '.olean'))
+                           for f in os.listdir(os.path.join(LEAN, 'Properties')) if re.match(r'^%s[a-z]?\.lean$' % self.pid, f))
+                if c.get('digest') == digest and c.get('ok') and have:
                     self.theorems = c['theorems']
                     self.ok = True
                     self.log += 'lean stage: cached (sources unchanged)\n'
